@@ -364,6 +364,13 @@ class Verdict:
         if f is not None:
             self.known_hit.setdefault(f["id"], f)
             return "known"
+        # several independent causes on one input ("a+b"): known iff every single cause is a known finding
+        if isinstance(sig.get("cause"), str) and "+" in sig["cause"]:
+            fs = [match_finding(self.ctx.prop, dict(sig, cause=c), self.findings) for c in sig["cause"].split("+")]
+            if all(x is not None for x in fs):
+                for x in fs:
+                    self.known_hit.setdefault(x["id"], x)
+                return "known"
         key = canon_hash(sig)
         if key in self.seen:
             return "dup"
